@@ -142,7 +142,7 @@ type sweepOut struct {
 	Stage   string  `json:"stage"` // accepted | lexical | convert | grammar
 	Bytes   int     `json:"bytes"`
 	NLines  int     `json:"nlines"`
-	LineLen []int   `json:"line_len,omitempty"` // byte length of each line (only for small inputs)
+	LineLen []int   `json:"line_len,omitempty"` // column width of each line (only for small inputs)
 	EPs     []epObs `json:"eps"`
 	Ms      int64   `json:"ms"`
 }
@@ -297,7 +297,8 @@ func errSweepOne(id, sql, class string, big bool, reps int) sweepOut {
 	out.NLines = len(lines)
 	if len(lines) <= 64 {
 		for _, l := range lines {
-			out.LineLen = append(out.LineLen, len(l))
+			// upper bound of the columns of the line: the tokenizer counts a tab as 4 columns, a multi-byte rune as 1
+			out.LineLen = append(out.LineLen, len(l)+3*strings.Count(l, "\t"))
 		}
 	}
 	// stage: who rejects it
